@@ -155,6 +155,113 @@ func main() {
 		gc, _ := jsonStrings(goChecks)
 		fmt.Printf("{\"stream\": %q, \"scripts\": %d, \"ops\": %d, \"panics\": %d, \"max_entities\": %d, \"max_tables\": %d, \"op_hist\": {%s}, \"go_checks\": %s}\n",
 			*stream, *n, totalOps, errCount, maxEnt, maxTables, strings.Join(hs, ", "), gc)
+	case "twin":
+		// C16: a world that was used and then Reset behaves like a new world. History H1 runs on world A,
+		// then A.Reset(); H2 is generated online against A (fresh bookkeeping) and mirrored line by line on a
+		// brand-new world B. Both observation traces are written; bin/checklib.py compares them up to the
+		// identity of entity handles (k-th handle issued in A <-> k-th handle issued in B).
+		fs := flag.NewFlagSet("twin", flag.ExitOnError)
+		seed := fs.Uint64("seed", 1, "seed")
+		n := fs.Int("n", 10, "number of scripts")
+		out := fs.String("out", ".", "output directory")
+		mode := fs.String("mode", "reset", "reset: used+Reset world vs new world; shrink: history with Shrink calls vs the same history without them")
+		fs.Parse(os.Args[2:])
+		if *mode == "shrink" {
+			// C15: Shrink never changes the outcome of any later operation. World A executes a history with
+			// Shrink calls, world B the same history with every Shrink replaced by a read-only Stats call.
+			stS := sim.Streams["shrink"]
+			sf, _ := os.Create(*out + "/twin_scripts.txt")
+			af, _ := os.Create(*out + "/twin_a.txt")
+			bf, _ := os.Create(*out + "/twin_b.txt")
+			sw, aw, bw := bufio.NewWriterSize(sf, 1<<20), bufio.NewWriterSize(af, 1<<20), bufio.NewWriterSize(bf, 1<<20)
+			for k := 0; k < *n; k++ {
+				rng := sim.NewRng(*seed*9000011 + uint64(k))
+				var layouts [][]int
+				for _, l := range stS.Codes {
+					if len(l) <= ecs.VerifMaskBits {
+						layouts = append(layouts, l)
+					}
+				}
+				codes := layouts[rng.Intn(len(layouts))]
+				caps := stS.Caps[rng.Intn(len(stS.Caps))]
+				cfg := sim.Config{Cap: caps[0], CapRel: caps[1], Bits: ecs.VerifMaskBits, Debug: ecs.VerifIsDebug, Codes: codes, WithDump: false}
+				a, b := sim.NewSim(cfg), sim.NewSim(cfg)
+				g := sim.NewGen(rng, a, stS)
+				writeLine(sw, cfg.Line())
+				for i := 0; i < stS.Ops; i++ {
+					line := g.NextOp()
+					writeLine(sw, line)
+					writeLine(aw, a.Step(line))
+					if line[0] == 14 {
+						writeLine(bw, b.Step([]int64{38}))
+					} else {
+						writeLine(bw, b.Step(line))
+					}
+				}
+				sw.WriteString("#\n")
+				aw.WriteString("#\n")
+				bw.WriteString("#\n")
+			}
+			sw.Flush()
+			aw.Flush()
+			bw.Flush()
+			sf.Close()
+			af.Close()
+			bf.Close()
+			fmt.Printf("{\"twin_scripts\": %d}\n", *n)
+			return
+		}
+		st1 := sim.Streams["reset"]
+		sf, _ := os.Create(*out + "/twin_scripts.txt")
+		af, _ := os.Create(*out + "/twin_a.txt")
+		bf, _ := os.Create(*out + "/twin_b.txt")
+		sw, aw, bw := bufio.NewWriterSize(sf, 1<<20), bufio.NewWriterSize(af, 1<<20), bufio.NewWriterSize(bf, 1<<20)
+		done := 0
+		for k := 0; done < *n && k < 4**n; k++ {
+			rng := sim.NewRng(*seed*7000003 + uint64(k))
+			codes := st1.Codes[rng.Intn(len(st1.Codes))]
+			if len(codes) > ecs.VerifMaskBits {
+				continue
+			}
+			caps := st1.Caps[rng.Intn(len(st1.Caps))]
+			cfg := sim.Config{Cap: caps[0], CapRel: caps[1], Bits: ecs.VerifMaskBits, Debug: ecs.VerifIsDebug, Codes: codes, WithDump: false}
+			// H1 on A (any stream's mix: take one at random)
+			names := []string{"store", "relations", "cache", "batch", "observers", "shrink", "reset"}
+			h1 := sim.Streams[names[rng.Intn(len(names))]]
+			h1.Codes = [][]int{codes}
+			a1 := sim.NewSim(cfg)
+			g1 := sim.NewGen(rng, a1, h1)
+			for i := 0; i < 20+rng.Intn(60); i++ {
+				a1.Step(g1.NextOp())
+			}
+			if a1.W.IsLocked() {
+				continue // H1 left queries open; Reset would be rejected
+			}
+			a1.W.Reset()
+			a := sim.NewSimOn(cfg, a1.W)
+			b := sim.NewSim(cfg)
+			h2 := sim.Streams[names[rng.Intn(len(names))]]
+			h2.Codes = [][]int{codes}
+			g2 := sim.NewGen(rng, a, h2)
+			writeLine(sw, cfg.Line())
+			for i := 0; i < 60; i++ {
+				line := g2.NextOp()
+				writeLine(sw, line)
+				writeLine(aw, a.Step(line))
+				writeLine(bw, b.Step(line))
+			}
+			sw.WriteString("#\n")
+			aw.WriteString("#\n")
+			bw.WriteString("#\n")
+			done++
+		}
+		sw.Flush()
+		aw.Flush()
+		bw.Flush()
+		sf.Close()
+		af.Close()
+		bf.Close()
+		fmt.Printf("{\"twin_scripts\": %d}\n", done)
 	case "replay":
 		fs := flag.NewFlagSet("replay", flag.ExitOnError)
 		script := fs.String("script", "", "script file")
